@@ -1,7 +1,8 @@
 (* C17 - Context cancellation of I/O loses no data and leaves the connection usable.
 
    Model: Ctx/Model.v - the interleavings of the calling goroutine, the watcher goroutine and the
-   environment (context cancelled / wrapped connection becomes ready, at any instant), for any number
+   environment (context cancelled / wrapped connection becomes ready, delivers an empty datagram, takes part of a write, or fails an
+   operation with an error of its own, at any instant), for any number
    of consecutive operations on one direction of a netctx.Conn, netctx.PacketConn or connctx.ConnCtx
    (the six functions have the same shape; operations on one direction are serialised by the mutex).
    The tie to the code is checked on every run: the functions are instrumented at every lock, channel,
@@ -85,5 +86,24 @@ Example C17_cancel_races_data :
             /\ mp s = M1 /\ dl_past s = false.
 Proof. eexists. vm_compute. repeat split. Qed.
 
-Example C17_reach_size : length reach = 78%nat.
+(* the wrapped connection fails the operation with an error of its own while the context is being cancelled: the forced deadline is
+   taken back all the same, and the caller gets the context's error (nothing was transferred) *)
+Example C17_cancel_and_own_error :
+  exists s, cxrun cx0 [EM_lock; EM_check; EM_add; EM_go; EN_cancel; EW_ctx; EW_set_past; EN_fail; EM_op_err;
+                       EM_close_done; EW_recv_done; EW_restore; EM_wait_return] = Some s
+            /\ mp s = MRet /\ ret_ctx_err s = true /\ dl_past s = false.
+Proof. eexists. vm_compute. repeat split. Qed.
+
+(* with a live context the wrapped connection's own error and an empty transfer come back unchanged *)
+Example C17_own_error_live_context :
+  exists s, cxrun cx0 [EM_lock; EM_check; EM_add; EM_go; EN_fail; EM_op_err; EM_close_done; EW_done; EM_wait_return] = Some s
+            /\ mp s = MRet /\ ret_ctx_err s = false /\ ret_own_err s = true.
+Proof. eexists. vm_compute. repeat split. Qed.
+
+Example C17_empty_transfer :
+  exists s, cxrun cx0 [EM_lock; EM_check; EM_add; EM_go; EN_ready; EM_op_data0; EM_close_done; EW_done; EM_wait_return] = Some s
+            /\ mp s = MRet /\ ret_ctx_err s = false /\ ret_own_err s = false /\ ret_n s = 0.
+Proof. eexists. vm_compute. repeat split. Qed.
+
+Example C17_reach_size : length reach = 260%nat.
 Proof. vm_compute. reflexivity. Qed.
